@@ -19,19 +19,23 @@ def lib_sources(with_db=True):
 _lib = {}
 
 
+SAN_RECOVER = ['-fsanitize=address,undefined', '-fsanitize-recover=undefined', '-fno-omit-frame-pointer']
+
+
 def build_lib(san=True, opt='-O1'):
     """Compile the library sources once per run into objects; returns list of .o paths."""
     key = (san, opt)
     if key in _lib:
         return _lib[key]
-    d = os.path.join(build.scratch(), 'lib_%s_%s' % ('san' if san else 'plain', opt.strip('-')))
+    flags = SAN_RECOVER if san == 'recover' else (SAN if san else [])
+    d = os.path.join(build.scratch(), 'lib_%s_%s' % (san if isinstance(san, str) else ('san' if san else 'plain'), opt.strip('-')))
     os.makedirs(d, exist_ok=True)
     srcs = lib_sources() + [os.path.join(build.STUBS, 'stubs.cpp')]
     procs = []
     objs = []
     for s in srcs:
         o = os.path.join(d, os.path.basename(os.path.dirname(s)) + '_' + os.path.basename(s) + '.o')
-        cmd = ['clang++'] + build.CXXFLAGS + [opt, '-g', '-c', s, '-o', o] + (SAN if san else [])
+        cmd = ['clang++'] + build.CXXFLAGS + [opt, '-g', '-c', s, '-o', o] + flags
         procs.append((subprocess.Popen(cmd, stdout=subprocess.PIPE, stderr=subprocess.PIPE, text=True), s))
         objs.append(o)
     for p, s in procs:
@@ -44,9 +48,10 @@ def build_lib(san=True, opt='-O1'):
 
 def build_harness(name, san=True, opt='-O1', extra=()):
     src = os.path.join(HERE, name + '.cpp')
-    exe = os.path.join(build.scratch(), name + ('_san' if san else ''))
+    exe = os.path.join(build.scratch(), name + ('_' + san if isinstance(san, str) else ('_san' if san else '')))
     objs = build_lib(san, opt)
-    cmd = ['clang++'] + build.CXXFLAGS + [opt, '-g', '-fno-access-control', src] + objs + ['-o', exe] + (SAN if san else []) + list(extra)
+    flags = SAN_RECOVER if san == 'recover' else (SAN if san else [])
+    cmd = ['clang++'] + build.CXXFLAGS + [opt, '-g', '-fno-access-control', src] + objs + ['-o', exe] + flags + list(extra)
     r = subprocess.run(cmd, capture_output=True, text=True)
     if r.returncode:
         raise RuntimeError('harness %s failed to build:\n%s' % (name, r.stderr[-4000:]))
